@@ -116,6 +116,13 @@ func droppedErrors(c *Check, fn *ssa.Function, extraExempt func(name string) boo
 		cut := func(b *ssa.BasicBlock, i int) bool { return nilEdges(b, i) || eofEdges(b, i) }
 		if ok, at := engine.PathExists(fn, s, successReturn, engine.PathQuery{CutEdge: cut, CutInstr: isFwd}); ok {
 			out = append(out, droppedErr{s, at})
+		} else if engine.InLoop(s) {
+			// overwritten by the next iteration before anybody looked at it
+			if again, _ := engine.PathExists(fn, s, engine.IsInstr(s), engine.PathQuery{CutEdge: cut, CutInstr: isFwd}); again {
+				if ok2, at2 := engine.PathExists(fn, s, successReturn, engine.PathQuery{}); ok2 {
+					out = append(out, droppedErr{s, at2})
+				}
+			}
 		}
 	}
 	return out
